@@ -21,6 +21,12 @@ CALLEES = {
     "wide": "def wide(x: Qint[4]) -> Qint[4]:\n    return x + 3",
     "xor3": "def xor3(x: bool, y: bool, z: bool) -> bool:\n    t = x ^ y\n    u = t ^ z\n    return u",
     "fx": "def fx(x: Qfixed[1,2]) -> Qfixed[1,2]:\n    return x + 0.5",
+    # names that clash with the callee prefix, wide results, a callee called 'oracle'
+    "sel": "def sel(sel_a: bool, a: bool, b: bool) -> bool:\n    return a if sel_a else b",
+    "msk": "def msk(msk_v: Qint[2], v: Qint[2]) -> Qint[2]:\n    return msk_v & (v + 1)",
+    "mix12": "def mix12(a: Qint[12]) -> Qint[12]:\n    return a ^ 1365",
+    "oracle": "def oracle(a: Qint[2]) -> Qint[2]:\n    return a + 1",
+    "tup11": "def tup11(a: Qint[4]) -> Tuple[bool, bool, bool, bool, bool, bool, bool, bool, bool, bool, bool]:\n    return (a[0], a[1], a[2], a[3], a[0] ^ a[1], a[1] ^ a[2], a[2] ^ a[3], a[0] and a[3], a[1] or a[2], not a[0], a[3])",
 }
 
 # (callee names, caller source)
@@ -69,6 +75,14 @@ CALLERS = [
     (["xor3"], "def test(t: bool, u: bool, x: bool) -> bool:\n    return xor3(u, x, t)"),
     (["fx"], "def test(a: Qfixed[1,2]) -> Qfixed[1,2]:\n    return fx(a)"),
     (["neg"], "def test(a: bool) -> bool:\n    return neg(True) and neg(a)"),
+    (["sel"], "def test(x: bool, y: bool, z: bool) -> bool:\n    return sel(x, y, z)"),
+    (["sel"], "def test(a: bool, b: bool, c: bool) -> bool:\n    return sel(c, b, a) ^ sel(a, a, b)"),
+    (["msk"], "def test(a: Qint[2], b: Qint[2]) -> Qint[2]:\n    return msk(a, b)"),
+    (["msk"], "def test(v: Qint[2], msk_v: Qint[2]) -> Qint[2]:\n    return msk(v, msk_v)"),
+    (["mix12"], "def test(a: Qint[12]) -> Qint[12]:\n    return mix12(a)"),
+    (["tup11"], "def test(a: Qint[4]) -> bool:\n    t = tup11(a)\n    return t[2] ^ t[10] ^ t[9]"),
+    (["oracle"], "def test(a: Qint[2]) -> Qint[2]:\n    return oracle(a)"),
+    ([], "def test(a: bool, b: bool) -> bool:\n    def par(a: bool, b: bool) -> bool:\n        par_a = a ^ b\n        return par_a and a\n    return par(b, a)"),
     (["both"], "def test(both_y: bool, a: bool) -> bool:\n    return both(both_y, a)"),
     (["both"], "def test(both_x: bool, both_y: bool) -> bool:\n    return both(both_y, both_x)"),
     ([], "def test(a: bool, b: bool) -> bool:\n    def inner(x: bool, y: bool) -> bool:\n        return x and not y\n    return inner(b, a)"),
@@ -284,12 +298,12 @@ def run(tier, seed):
         if cs:
             other = next((s2 for c2, s2 in CALLERS if c2 == cs and s2 != src), src)
             reuse.append(dict(callees=cs, src=src, fname="test", optimizer="default", warmup=[("caller", other), ("caller", src)]))
-    for nm, el in (("inc", 2), ("gt1", True), ("neg", False)):
+    for nm, el in (("inc", 2), ("gt1", True), ("neg", False), ("oracle", 2)):
         caller = next(s2 for c2, s2 in CALLERS if c2 == [nm])
         reuse.append(dict(callees=[nm], src=caller, fname="test", optimizer="default", warmup=[("oraclize", el)]))
     jobs += reuse
     # equality oracles f(x) == element for every return type
-    for nm, el in (("inc", 2), ("inc", 0), ("gt1", True), ("neg", False), ("wide", 7), ("addp", 1)):
+    for nm, el in (("inc", 2), ("inc", 0), ("gt1", True), ("neg", False), ("wide", 7), ("oracle", 3), ("addp", 1)):
         arg = CALLEES[nm].split("(")[1].split(")")[0].split(":", 1)[1].split(",")[0].strip() if nm != "addp" else None
         if nm == "addp":
             continue
